@@ -188,11 +188,20 @@ fn parse_object_type_definition(
 fn parse_object_type_extension(
     tokens: &mut PeekableLexer,
 ) -> DiagnosticResult<GraphQLObjectTypeExtension> {
-    let name = tokens.parse_string_key_type(TokenKind::Identifier)?;
+    let name: WithEmbeddedLocation<EntityName> =
+        tokens.parse_string_key_type(TokenKind::Identifier)?;
 
     let interfaces = parse_implements_interfaces_if_present(tokens)?;
     let directives = parse_constant_directives(tokens)?;
     let fields = parse_optional_fields(tokens)?;
+
+    if interfaces.is_empty() && directives.is_empty() && fields.is_empty() {
+        return Diagnostic::new(
+            "A type extension must add interfaces, directives or fields.".to_string(),
+            name.location.to::<Location>().wrap_some(),
+        )
+        .wrap_err();
+    }
 
     GraphQLObjectTypeExtension {
         name,
